@@ -549,6 +549,72 @@ impl Res for u64 {
         *self == t
     }
 }
+// result types whose `None` is NOT the all-zero bit pattern (niche encodings): a join after a panic must
+// still be `None` whatever the join state's memory held before
+impl Res for bool {
+    const NAME: &'static str = "bool";
+    fn make(t: u64) -> bool {
+        t & 2 == 0
+    }
+    fn check(&self, t: u64) -> bool {
+        *self == (t & 2 == 0)
+    }
+}
+impl Res for char {
+    const NAME: &'static str = "char";
+    fn make(t: u64) -> char {
+        char::from_u32((t % 0xD000) as u32).unwrap_or('x')
+    }
+    fn check(&self, t: u64) -> bool {
+        *self == char::from_u32((t % 0xD000) as u32).unwrap_or('x')
+    }
+}
+#[derive(PartialEq, Eq, Clone, Copy)]
+enum E3 {
+    A,
+    B,
+    C,
+}
+impl Res for E3 {
+    const NAME: &'static str = "enum3";
+    fn make(t: u64) -> E3 {
+        [E3::A, E3::B, E3::C][(t % 3) as usize]
+    }
+    fn check(&self, t: u64) -> bool {
+        *self == [E3::A, E3::B, E3::C][(t % 3) as usize]
+    }
+}
+impl Res for core::cmp::Ordering {
+    const NAME: &'static str = "ordering";
+    fn make(t: u64) -> core::cmp::Ordering {
+        (t % 3).cmp(&1)
+    }
+    fn check(&self, t: u64) -> bool {
+        *self == (t % 3).cmp(&1)
+    }
+}
+impl Res for u128 {
+    const NAME: &'static str = "u128";
+    fn make(t: u64) -> u128 {
+        (u128::from(t) << 64) | u128::from(!t)
+    }
+    fn check(&self, t: u64) -> bool {
+        (core::ptr::from_ref(self) as usize) % 16 == 0 && *self == ((u128::from(t) << 64) | u128::from(!t))
+    }
+}
+#[repr(align(4096))]
+struct A4096 {
+    v: u64,
+}
+impl Res for A4096 {
+    const NAME: &'static str = "align4096";
+    fn make(t: u64) -> A4096 {
+        A4096 { v: t }
+    }
+    fn check(&self, t: u64) -> bool {
+        (core::ptr::from_ref(self) as usize) % 4096 == 0 && self.v == t
+    }
+}
 struct Big([u8; 4096]);
 impl Res for Big {
     const NAME: &'static str = "big4096";
@@ -679,17 +745,20 @@ fn spawn_one<T: Res>(idx: usize, tag: u64, panics: bool, wait_gate: bool, work_u
             }
         }
         sleep_us(work_us);
-        let r = T::make(tag);
         unsafe {
             let p = core::ptr::addr_of_mut!(BUF[idx]).cast::<u64>();
             for i in 0..8 {
                 p.add(i).write(tag.wrapping_add(i as u64));
             }
         }
-        DONE[idx].store(1, Ordering::Release);
         if panics {
+            // nothing the closure owns may be alive here: locals of a panicking closure are never dropped
+            // (that is the documented exception, not a leak of the runtime)
+            DONE[idx].store(1, Ordering::Release);
             panic!("expected panic in thread_probe");
         }
+        let r = T::make(tag);
+        DONE[idx].store(1, Ordering::Release);
         r
     })
 }
@@ -963,6 +1032,21 @@ fn scen_cells(seed: u64, n: usize) {
     cell_batch::<A64>(seed ^ 4, n / 4 + 1, Disp::JoinRace, false, true, &mut r);
     cell_batch::<HeapRes>(seed ^ 5, n / 4 + 1, Disp::JoinRace, false, false, &mut r);
     cell_batch::<HeapRes>(seed ^ 6, n / 4 + 1, Disp::JoinEarly, false, true, &mut r);
+    // niche-encoded and over-aligned layouts, returning and panicking, joined early / late / racing
+    let m = n / 4 + 2;
+    cell_batch::<bool>(seed ^ 7, m, Disp::JoinRace, true, false, &mut r);
+    cell_batch::<bool>(seed ^ 8, m, Disp::JoinEarly, false, false, &mut r);
+    cell_batch::<char>(seed ^ 9, m, Disp::JoinLate, true, false, &mut r);
+    cell_batch::<char>(seed ^ 10, m, Disp::JoinRace, false, true, &mut r);
+    cell_batch::<E3>(seed ^ 11, m, Disp::JoinEarly, true, true, &mut r);
+    cell_batch::<E3>(seed ^ 12, m, Disp::JoinLate, false, false, &mut r);
+    cell_batch::<core::cmp::Ordering>(seed ^ 13, m, Disp::JoinRace, true, false, &mut r);
+    cell_batch::<HeapRes>(seed ^ 14, m, Disp::JoinRace, true, false, &mut r);
+    cell_batch::<HeapRes>(seed ^ 15, m, Disp::JoinLate, true, true, &mut r);
+    cell_batch::<u128>(seed ^ 16, m, Disp::JoinRace, false, false, &mut r);
+    cell_batch::<u128>(seed ^ 17, m, Disp::JoinEarly, true, false, &mut r);
+    cell_batch::<A4096>(seed ^ 18, m, Disp::JoinLate, false, false, &mut r);
+    cell_batch::<A4096>(seed ^ 19, m, Disp::DropRace, false, true, &mut r);
 }
 
 /// joins and drops that really park, with EINTR / spurious wake-ups injected into the futex waits
